@@ -263,7 +263,15 @@ def instr_streams(seed, tier):
                 order = rng.choice([[target, pat, sub], [target, sub, pat], [pat, target, sub]])
                 st["code"] = order + st["code"]
                 st["int"] = [rng.randrange(-2 * len(subs) - 2, 2 * len(subs) + 3)] + st["int"]
-            elif r < 0.8 and nm in ("CODE.SUBST", "CODE.CONTAINS", "CODE.MEMBER", "CODE.POSITION", "CODE.CONTAINER"):
+            elif r < 0.8 and nm in ("CODE.DISCREPANCY", "CODE.=", "CODE.APPEND", "CODE.MEMBER", "CODE.CONTAINS"):
+                # a list and a near copy of it: a prefix, a suffix, one element dropped / changed / added, the one-element list of an atom
+                target = stepgen.rand_item(rng, safe, 3, 5)
+                if not (isinstance(target, list) and target and target[0] == 0 and len(target) > 2):
+                    target = [0, [4, 1], [4, 2], [4, 3]]
+                kids = target[1:]
+                near = rng.choice([[0] + kids[:-1], [0] + kids[1:], [0] + kids + [[4, 9]], [0] + [[4, 9]] + kids, mutate(rng, target), kids[0], [0, kids[0]], [0, target]])
+                st["code"] = rng.choice([[target, near], [near, target]]) + st["code"]
+            elif r < 0.8 and nm in ("CODE.SUBST", "CODE.POSITION", "CODE.CONTAINER"):
                 tt, pp, ss = self_nested(rng, lambda: stepgen.rand_item(rng, safe, 2, 3))
                 st["code"] = rng.choice([[tt, pp, ss], [tt, ss, pp], [pp, tt, ss], [ss, pp, tt], [pp, ss, tt], [ss, tt, pp]]) + st["code"]
             st["exec"] = [I(nm)] + st["exec"]
